@@ -44,16 +44,18 @@ META = dict(
     claimed=True,
     text='Kernel-checked theorems about the Lean model of DataQuerent (query / query_compressed_data / '
          'filter_for_sub_nodes with its child, attribute and descendant variants / filter_for_entities / '
-         'create_values_from_nodes / QueryResult) for EVERY node tree, flat value list and path: pySlice is CPython\'s '
-         'slice.indices (membership characterisation for positive and negative steps, ordering, bounds, closed forms); '
-         'an `@` selector restricts the result of the unselected query to exactly pySlice of the subset indices; for '
-         'paths of child and attribute steps with non-negative int and non-zero-step slices the query over a tree whose '
-         'replications hold whole repetitions equals Spec.evalPath over the nested JSON rendering of that tree (one '
-         'envelope per replication, one list per repetition, matches in document order, error family included); the '
-         'flattened result of the bare id of an ordinary element (an id on no attribute node) is the list of flat values '
-         'with that label in flat order; on a shared tree the compressed query is the uncompressed one per subset. '
-         'Correspondence + oracle on generated messages, the C09 shapes and the sample files x all existing paths up to '
-         'depth 6 x slices x subset selectors.',
+         'create_values_from_nodes / QueryResult), for EVERY node tree, flat list, path and subset count: pySlice is '
+         'range(*slice.indices(n)) of CPython (membership for positive and negative steps, order, no repeats, bounds, closed '
+         'forms for [:], [k], [-k], [a:b]); an `@` selector restricts the result of the unselected query to exactly the '
+         'subsets it designates; filter_for_entities under a child/attribute step returns the matches with the slice applied '
+         'in document order for every slice of the path language (negative steps included); on a shared tree with equal '
+         'labels the compressed query equals the uncompressed one subset by subset. Of "query = evaluation over the nested '
+         'JSON" and "bare id = flat filter" only the first stages are proved (_partial: one step from the top level; trees '
+         'without composite nodes); the full statements are decided case by case: the correspondence run compares '
+         'Spec.evalPath on the model\'s nested JSON with the model query and the model with the implementation on every '
+         'query, and the oracle compares the implementation with an evaluator over its own nested JSON, its flat lists '
+         'filtered by label, post-hoc subset selection, the compressed/uncompressed and compiled/plain decodings, on '
+         'generated messages, the C09 shapes and the sample files x all existing paths up to depth 6 x slices x selectors.',
     technique='Lean 4 theorems (structural induction over the node tree / the path, list reasoning about enumerate-filter-'
               'slice-sort) + checked model/implementation correspondence + property oracle on the implementation '
               '(query vs evaluator over the implementation\'s own nested JSON)',
